@@ -17,7 +17,7 @@ RULE = (
     "pictures each (quick R=3, thorough R=80; sizes and contents from random.Random seeded by VERIF_SEED and the "
     "combination index; one of the R sizes is 1..5). Generated part: Hypothesis draws all parameters; picture "
     "kinds: noise, constant, single impulse, ramp, +-extreme checkerboard, explicit <=4x4 picture tiled from 4 drawn integers up to 2^64; "
-    "magnitudes: +-4, 10 bit, +-2^15, +-2^40, +-2^200. Oracle: idwt_pad_removal(idwt(dwt(dwt_pad_addition(p)))) == p "
+    "magnitudes: +-4, 10 bit, +-2^15, +-2^40, +-2^200. Oracle: idwt_pad_removal(idwt(dwt(dwt_pad_addition(p)))) == p, and the same through the whole-picture entry points forward_wavelet_transform / inverse_wavelet_transform (other components 1x1) "
     "element-wise on Python ints; the padded picture has the harness model's padded size; dwt returns exactly the "
     "subbands LL|L, H per horizontal-only level, HL/LH/HH per 2-D level, each with height x width equal to "
     "subband_height/subband_width of slice_sizes.py and to the harness's padded-size-halving model. Padding sample "
@@ -189,6 +189,32 @@ def check_case(mods, case, col):
     except Exception as e:
         col.fail(col.crash_bucket(e), data, "%s: %s: %s" % (desc, type(e).__name__, e))
         return False
+    # the same round trip through the whole-picture entry points the encoder and decoder use (15.3): the other two
+    # components are 1x1 so that the cost stays with the component under test
+    try:
+        state2 = dict(state)
+        if comp == "Y":
+            state2.update(color_diff_width=1, color_diff_height=1)
+        else:
+            state2.update(luma_width=1, luma_height=1)
+        current = {c: ([row[:] for row in original] if c == comp else [[0]]) for c in ("Y", "C1", "C2")}
+        PE.forward_wavelet_transform(state2, current)
+        key = {"Y": "y_transform", "C1": "c1_transform", "C2": "c2_transform"}[comp]
+        for level in sorted(state2[key]):
+            for orient in sorted(state2[key][level]):
+                got = shape_of(state2[key][level][orient])
+                if level in model and got != (model[level][1], model[level][0]):
+                    col.fail("shape-vs-model", data, "%s: forward_wavelet_transform subband level %d %s has shape %r (h,w); "
+                             "padded-size halving gives %r" % (desc, level, orient, got, (model[level][1], model[level][0])))
+        state2["current_picture"] = {}
+        PD.inverse_wavelet_transform(state2)
+        out2 = state2["current_picture"][comp]
+    except Exception as e:
+        col.fail(col.crash_bucket(e, "whole-picture"), data, "%s: forward/inverse_wavelet_transform: %s: %s" % (desc, type(e).__name__, e))
+        return False
+    if out2 != original:
+        col.fail("roundtrip-whole-picture", data, "%s: forward_wavelet_transform + inverse_wavelet_transform do not reconstruct the "
+                 "picture (shape %r, expected %r)" % (desc, shape_of(out2), (h, w)))
     if out != original:
         where = "shape %r instead of %r" % (shape_of(out), (h, w))
         if shape_of(out) == (h, w):
